@@ -126,6 +126,7 @@ type verifWheelCall struct {
 	Key   *string `json:"key"`
 	Val   int     `json:"val"`
 	Delay int64   `json:"delay"` // nanoseconds
+	W     int     `json:"w"`     // 1: the call goes to the second wheel of the case (set | move | remove | drain | tick | stop)
 }
 
 type verifWheelCase struct {
@@ -135,12 +136,15 @@ type verifWheelCase struct {
 	// keys whose execute callback / drain function call panics after having been recorded ("*": all)
 	PanicExec  []string `json:"panic_exec"`
 	PanicDrain []string `json:"panic_drain"`
+	Wheels     int      `json:"wheels"`     // 2: a second, independent wheel (same interval and slots) runs beside the first
+	GoMaxProcs int      `json:"gomaxprocs"` // > 0: runtime.GOMAXPROCS for the duration of the case
 	// key -> a wheel call for the SAME key made from inside its execute callback (first firing only)
 	Rearm map[string]verifWheelCall `json:"rearm"`
 }
 
 type verifWheelObs struct {
-	Err     int            `json:"err"` // 0 nil, 1 ErrClosed, 2 ErrArgument, 3 panic
+	Err     int            `json:"err"`  // 0 nil, 1 ErrClosed, 2 ErrArgument, 3 panic
+	Err2    int            `json:"err2"` // setrm: error of the RemoveTimer
 	Fired   []verifPair    `json:"fired"`
 	Drained []verifPair    `json:"drained"`
 	Rearmed []verifRearmed `json:"rearmed"` // wheel calls made from inside callbacks of this call's batch, in order
@@ -319,6 +323,24 @@ func verifWheel(raw json.RawMessage) any {
 	g.wheel = w
 	g.mu.Unlock()
 	base := base0 + 1
+	// the second wheel: plain recorder, no gates
+	var wB *TimingWheel
+	var tickerB timex.FakeTicker
+	gB := &verifGates{batch: map[uint64]int{}, armed: map[string]chan struct{}{}, holding: map[string]chan struct{}{}, lastDrain: -1,
+		panicExec: map[string]bool{}, panicDrain: map[string]bool{}, rearm: map[string]verifWheelCall{}}
+	stoppedB := true
+	if c.Wheels >= 2 {
+		tickerB = timex.NewFakeTicker()
+		wB, err = newTimingWheelWithClock(time.Duration(c.Interval), c.Slots, gB.exec, tickerB)
+		if err != nil {
+			return map[string]any{"new_ok": false, "obs": []verifWheelObs{}, "timeouts": 0}
+		}
+		stoppedB = false
+		base++
+	}
+	if c.GoMaxProcs > 0 {
+		defer runtime.GOMAXPROCS(runtime.GOMAXPROCS(c.GoMaxProcs))
+	}
 	exitPending := false // Stop issued while the loop is inside a held drainAll: it exits after the hand-over
 	stopped := false
 	drainHeld := false // Drain issued while the drain gate is armed: the run loop may be busy
@@ -331,7 +353,7 @@ func verifWheel(raw json.RawMessage) any {
 		gd.wait("tick not taken by the run loop", func() bool { return len(ticker.Chan()) == 0 })
 	}
 	settle := func(what string) {
-		gd.wait(what, func() bool { return runtime.NumGoroutine() <= base+g.extra() })
+		gd.wait(what, func() bool { return runtime.NumGoroutine() <= base+g.extra()+gB.extra() })
 	}
 	waitPump := func() {
 		gd.wait("ticks queued behind drainAll not delivered", func() bool { return atomic.LoadInt32(&g.pump) == 0 })
@@ -340,13 +362,62 @@ func verifWheel(raw json.RawMessage) any {
 		gd.run("run loop did not exit after Stop", func() { <-ticker.Chan() })
 	}
 	errs := make([]int, len(c.Calls))
+	errs2 := make([]int, len(c.Calls)) // setrm: the RemoveTimer's error
 	done := 0
 	for idx, call := range c.Calls {
 		g.mu.Lock()
 		g.cur = idx
+		gB.mu.Lock()
+		gB.cur = idx
+		gB.mu.Unlock()
 		g.mu.Unlock()
 		e := 0
+		if call.W == 1 && wB != nil { // the second wheel: no gates, so every call is followed by its own barrier
+			switch call.Op {
+			case "set":
+				gd.run("B: SetTimer blocked", func() {
+					e = verifErrCode(wB.SetTimer(verifKey(call.Key), call.Val, time.Duration(call.Delay)))
+				})
+			case "move":
+				gd.run("B: MoveTimer blocked", func() { e = verifErrCode(wB.MoveTimer(verifKey(call.Key), time.Duration(call.Delay))) })
+			case "remove":
+				gd.run("B: RemoveTimer blocked", func() { e = verifErrCode(wB.RemoveTimer(verifKey(call.Key))) })
+			case "drain":
+				gB.mu.Lock()
+				gB.lastDrain = idx
+				gB.mu.Unlock()
+				gd.run("B: Drain blocked", func() { e = verifErrCode(wB.Drain(gB.drain)) })
+			case "tick":
+				if !stoppedB {
+					gd.run("B: Tick blocked", tickerB.Tick)
+					gd.wait("B: tick not taken by the run loop", func() bool { return len(tickerB.Chan()) == 0 })
+				}
+			case "stop":
+				if panicked, _ := verifdrv.Catch(wB.Stop); panicked {
+					e = 3
+				} else {
+					gd.run("B: run loop did not exit after Stop", func() { <-tickerB.Chan() })
+					stoppedB = true
+					base--
+				}
+			}
+			errs[idx] = e
+			if e == 0 {
+				gd.run("B: barrier: run loop does not accept a call", func() { _ = wB.MoveTimer(verifBarrierKey, time.Duration(c.Interval)) })
+			}
+			settle("B: callbacks started by call " + call.Op + " did not finish")
+			if !gd.ok() {
+				break
+			}
+			done = idx + 1
+			continue
+		}
 		switch call.Op {
+		case "setrm": // SetTimer, then RemoveTimer of the same key straight away from the same goroutine
+			gd.run("SetTimer/RemoveTimer blocked", func() {
+				e = verifErrCode(w.SetTimer(verifKey(call.Key), call.Val, time.Duration(call.Delay)))
+				errs2[idx] = verifErrCode(w.RemoveTimer(verifKey(call.Key)))
+			})
 		case "set":
 			gd.run("SetTimer blocked", func() {
 				e = verifErrCode(w.SetTimer(verifKey(call.Key), call.Val, time.Duration(call.Delay)))
@@ -391,7 +462,7 @@ func verifWheel(raw json.RawMessage) any {
 			} else {
 				closed()
 				stopped = true
-				base = base0
+				base--
 			}
 		case "hold":
 			if call.Key != nil {
@@ -418,7 +489,7 @@ func verifWheel(raw json.RawMessage) any {
 			}
 			if exitPending {
 				closed()
-				base = base0
+				base--
 				exitPending = false
 			}
 		}
@@ -457,21 +528,25 @@ func verifWheel(raw json.RawMessage) any {
 	}
 	if exitPending {
 		closed()
-		base = base0
+		base--
 	}
 	settle("callbacks still running at the end of the case")
 	if hung == "" {
 		hung = fin.hung
 	}
+	if !stoppedB && wB != nil {
+		wB.Stop()
+		fin.run("", func() { <-tickerB.Chan() })
+	}
 	if !stopped {
 		w.Stop()
 		fin.hung = ""
 		closed()
-		fin.wait("", func() bool { return runtime.NumGoroutine() <= base0+g.extra() })
 	}
+	fin.wait("", func() bool { return runtime.NumGoroutine() <= base0+g.extra()+gB.extra() })
 	obs := make([]verifWheelObs, len(c.Calls))
 	for i := range obs {
-		obs[i] = verifWheelObs{Err: errs[i], Fired: []verifPair{}, Drained: []verifPair{}, Rearmed: []verifRearmed{}}
+		obs[i] = verifWheelObs{Err: errs[i], Err2: errs2[i], Fired: []verifPair{}, Drained: []verifPair{}, Rearmed: []verifRearmed{}}
 	}
 	g.mu.Lock()
 	for _, r := range g.rearmed {
@@ -481,6 +556,22 @@ func verifWheel(raw json.RawMessage) any {
 	}
 	g.mu.Unlock()
 	late := 0
+	gB.mu.Lock()
+	for _, ev := range gB.fired {
+		if ev.call < len(obs) {
+			obs[ev.call].Fired = append(obs[ev.call].Fired, ev.pair)
+		} else {
+			late++
+		}
+	}
+	for _, ev := range gB.drained {
+		if ev.call >= 0 && ev.call < len(obs) {
+			obs[ev.call].Drained = append(obs[ev.call].Drained, ev.pair)
+		} else {
+			late++
+		}
+	}
+	gB.mu.Unlock()
 	g.mu.Lock()
 	for _, ev := range g.fired {
 		if ev.call < len(obs) {
